@@ -298,10 +298,17 @@ pub fn run(ctx: &Ctx) -> Verdict {
     let n2 = ctx.tier.pick(300, 6_000);
     let conc = (2..=8u8, 1..=12u8, any::<u8>()).prop_map(|(threads, per_thread, salt)| ConcurrentCase { threads, per_thread, salt });
     v.subs.push(vcore::run_proptest(ctx, "concurrent", n2, conc, check_concurrent));
+    if ctx.tier == vcore::Tier::Thorough {
+        v.subs.push(super::fuzz_campaign(ctx, 1_500_000));
+    }
     v
 }
 
 pub fn replay(sub: &str, case: Value) -> Result<(), String> {
+    if sub == "fuzz" {
+        let scn: Scenario = serde_json::from_value(case).map_err(|e| format!("HARNESS: bad case: {e}"))?;
+        return check(&ThreadedCase { scn, plan: vec![] }).map(|_| ());
+    }
     if sub == "concurrent" {
         let c: ConcurrentCase = serde_json::from_value(case).map_err(|e| format!("HARNESS: bad case: {e}"))?;
         return check_concurrent(&c).map(|_| ());
